@@ -13,6 +13,8 @@
  *   &<k> <term>  names the OBJECT built from <term> (k = 0…63, once per line);  *<k>  is that object again: the same pointer in
  *   two slots of a Tuple (a Tuple holds references; Array / List / Tree take copies), in both operands, or as both operands.
  *   A name is usable only after its term is complete, so no object contains itself.
+ *   Array / List elements and Tree values may be Tuples (element type Tuple): the container's copy of a Tuple is made by
+ *   Tuple_Assign, which copies the item POINTERS, so the embedded Tuple references the objects its source references.
  * A sign is printed as `H` when the call did not return (it is then run in a forked child and killed) and `C` when the child died.
  * Comparisons in which an operand holds a Tuple with one object in two slots (an identity walk over it never ends), and every
  * comparison after the first oracle failure of the process, run in a forked child; everything else runs under a watchdog
@@ -31,7 +33,8 @@
  * current element again by pointer identity; with one object in two slots of the right-hand Tuple the walk falls back to the
  * slot after the first occurrence.  Failures of a call whose right operand contains such a Tuple are printed with
  * sig=kf-c09-tuple-dup-obj; the generators never put such a Tuple on the right (`lcmp` exists for that: a Tuple with a repeated
- * object as the LEFT operand only). */
+ * object as the LEFT operand only).  "Contains" reaches through Arrays, Lists and Tree values: `new(Array, Tuple, x)` holds a copy
+ * of `x` that references the same objects twice. */
 #include "common.h"
 #include <inttypes.h>
 #include <poll.h>
@@ -187,14 +190,14 @@ static int valid(V* v) {
       for (size_t k = 0; k < v->n; k++) {
         if (!valid(v->el[k])) return 0;
         int ek = v->el[k]->kind;
-        if (!(ek == K_INT || ek == K_FLT || ek == K_STR || ek == K_ARR || ek == K_LST)) return 0;
+        if (!(ek == K_INT || ek == K_FLT || ek == K_STR || ek == K_ARR || ek == K_LST || ek == K_TUP)) return 0;
       }
       return v->n == 0 || all_same_kind(v->el, v->n, 0, 1);
     case K_TREE:
       for (size_t k = 0; k < 2 * v->n; k++) {
         if (!valid(v->el[k])) return 0;
         int ek = v->el[k]->kind;
-        if (!(ek == K_INT || ek == K_FLT || ek == K_STR)) return 0;
+        if (!(ek == K_INT || ek == K_FLT || ek == K_STR || (ek == K_TUP && (k & 1)))) return 0;     /* values may be Tuples */
       }
       return v->n == 0 || (all_same_kind(v->el, 2 * v->n, 0, 2) && all_same_kind(v->el, 2 * v->n, 1, 2));
   }
@@ -227,7 +230,16 @@ static int has_dup_top(V* v) {
 
 /* `comparable`, except that where one of two sequences is a Tuple holding an object twice an identity walk can bring ANY element
    of the one against ANY element of the other: all of those pairs must be of one kind (lean/Driver/Cmp.lean `okPair`) */
+static int ref_cmp(V* a, V* b);
+static V** ref_tree_entries(V* t, size_t* n_out);
+
 static int ok_pair(V* a, V* b) {
+  if (a->kind == K_TREE && b->kind == K_TREE) {
+    /* entry by entry in iteration order (the reference order of the keys): key with key, value with value */
+    size_t na, nb; V** ea = ref_tree_entries(a, &na); V** eb = ref_tree_entries(b, &nb); int ok = 1;
+    for (size_t k = 0; k < na && k < nb; k++) if (!comparable(ea[2*k], eb[2*k]) || !ok_pair(ea[2*k+1], eb[2*k+1])) ok = 0;
+    free(ea); free(eb); return ok;
+  }
   if (is_seq(a) && is_seq(b)) {
     if (has_dup_top(a) || has_dup_top(b)) {
       for (size_t i = 0; i < a->n; i++) for (size_t j = 0; j < b->n; j++) if (!ok_pair(a->el[i], b->el[j])) return 0;
@@ -246,7 +258,7 @@ static int runnable(V* a, V* b) {
 
 /* ------------------------------------------------------------------------------------------------ building Cello objects */
 static var elem_type(int kind) {
-  switch (kind) { case K_INT: return Int; case K_FLT: return Float; case K_STR: return String; case K_ARR: return Array; default: return List; }
+  switch (kind) { case K_INT: return Int; case K_FLT: return Float; case K_STR: return String; case K_ARR: return Array; case K_TUP: return Tuple; default: return List; }
 }
 
 static var build(V* v) {
@@ -307,8 +319,6 @@ static long long float_key(uint64_t b) {
 }
 static size_t key_disagreements = 0;
 
-static int ref_cmp(V* a, V* b);
-
 static int ref_lex(V** x, size_t nx, V** y, size_t ny) {
   for (size_t k = 0; ; k++) {
     if (k == nx && k == ny) return 0;
@@ -358,11 +368,13 @@ static size_t n_fail = 0;            /* oracle failures so far in this process *
 #define XF(...) do { n_fail++; X(__VA_ARGS__); } while (0)
 #define KF_SIG "kf-c09-tuple-dup-obj"
 
-/* a Tuple, at any depth, that references one object from two slots */
+/* a Tuple, at any depth — as a slot of a Tuple, an element of an Array / List, a value of a Tree — that references one object from
+   two slots (the container's copy of a Tuple references the same objects as its source) */
 static int has_dup_tuple(V* v) {
-  if (v->kind != K_TUP) return 0;
-  for (size_t i = 0; i < v->n; i++) for (size_t j = i + 1; j < v->n; j++) if (v->el[i] == v->el[j]) return 1;
-  for (size_t i = 0; i < v->n; i++) if (has_dup_tuple(v->el[i])) return 1;
+  if (v->kind == K_TUP)
+    for (size_t i = 0; i < v->n; i++) for (size_t j = i + 1; j < v->n; j++) if (v->el[i] == v->el[j]) return 1;
+  if (v->kind == K_TUP || v->kind == K_ARR || v->kind == K_LST) { for (size_t i = 0; i < v->n; i++) if (has_dup_tuple(v->el[i])) return 1; }
+  if (v->kind == K_TREE) { for (size_t i = 0; i < v->n; i++) if (has_dup_tuple(v->el[2*i+1])) return 1; }
   return 0;
 }
 
